@@ -58,4 +58,243 @@ CONTRACTS = {
     modifies=['self.info_string', 'ghost:feas'],
     ensures=[('constraints-are-exactly-alpha-beta-gamma-per-acceptable-pair',
               'feas() == (old(feas()) and forall(i, 0, self.model.num_students, row_ok(i, len(self.model.pairs[i]))))')]),
+
+ # ---- one optimisation step: set the objective, solve once, freeze the achieved value (C03 FREEZE, C04)
+ M + 'perform_optimisation': dict(
+    params={'objective_function': 'var', 'optimisation_type': ('enumsym', 'Optimisation_type')},
+    requires=['optimisation_type == Optimisation_type.MAXIMISE or optimisation_type == Optimisation_type.MINIMISE'],
+    modifies=['self.solve_performed', 'ghost:feas', 'ghost:val', 'ghost:status', 'ghost:hist', 'ghost:solves', 'ghost:objective', 'ghost:feas_at_solve'],
+    ensures=[('solved-exactly-once', 'solves() == old(solves()) + 1 and hist(old(solves())) == status()'), ('earlier-history-unchanged', 'forall(u, implies(u < old(solves()), hist(u) == old(hist(u))))'), ('solve-recorded', 'implies(solves() > old(solves()), self.solve_performed) and implies(solves() == old(solves()), self.solve_performed == old(self.solve_performed))'),
+             ('solved-the-problem-as-it-was', 'feas_at_solve() == old(feas())'),
+             ('objective-is-the-given-variable-with-the-right-sense',
+              'objective() == ite(optimisation_type == Optimisation_type.MAXIMISE, nu(objective_function), 0 - nu(objective_function))'),
+             ('achieved-value-frozen', 'feas() == (old(feas()) and ite(optimisation_type == Optimisation_type.MAXIMISE, '
+                                       'nu(objective_function) >= solved(objective_function), nu(objective_function) <= solved(objective_function)))')]),
+
+ M + 'get_all_vars_at_rank': dict(
+    params={'r': 'int'}, locals={'all_vars': ('list', 'var')},
+    requires=['1 <= r', 'r <= len(self.model.rank_lists)', 'has_vars(self.model.rank_lists)'],
+    loops={0: dict(invariant=['len(all_vars) == _k', 'forall(t, 0, _k, all_vars[t] == self.model.rank_lists[r - 1][t].lp_var)'])},
+    returns=('list', 'var'),
+    ensures=[('the-variables-of-rank-r', 'len(result) == len(self.model.rank_lists[r - 1]) and forall(t, 0, len(result), result[t] == self.model.rank_lists[r - 1][t].lp_var)')]),
+
+ # ---- C03 generous: for ranks R, R-1, ..., cut: minimise the number of students at that rank, freezing each optimum
+ M + 'optimisation_generous': dict(
+    params={'additional_arguments': ('list', 'int')},
+    requires=['has_vars(self.model.rank_lists)', 'self.model.num_students >= 0'],
+    defs={'R': ([], 'len(self.model.rank_lists)'),
+          'cut': ([], 'ite(len(additional_arguments) < 1, 1, additional_arguments[0])'),
+          'N': ([], 'ite(R() > max(0, cut() - 1), R() - max(0, cut() - 1), 0)'),          # number of ranks visited
+          'ov': (['r'], "indexedvar('obj_generous_rank_', r)"),
+          # rank r (visited in descending order): objective variable bounded, linked to the number of students at rank r,
+          # and frozen at the minimum found (ghost history indexed by rank)
+          'stepr': (['r'], '0 <= nu(ov(r)) and nu(ov(r)) <= self.model.num_students'
+                           ' and varsum(self.model.rank_lists[r - 1]) == nu(ov(r))'
+                           " and nu(ov(r)) <= rec('bound')[r]"),
+          'done': ([], 'solves() - old(solves())')},
+    loops={0: dict(record={'bound': ('int', 'solved(obj)', 'r')},
+                   invariant=['feas() == (old(feas()) and forall(r2, R() - done() + 1, R() + 1, stepr(r2)))',
+                              'solves() == old(solves()) + _k',
+                              ('no-solve-after-a-failure', 'forall(u, old(solves()), solves(), hist(u) == 1)'),
+                              'forall(u, implies(u < old(solves()), hist(u) == old(hist(u))))',
+                              'implies(_k == 0, status() == old(status()))', 'implies(_k > 0, hist(solves() - 1) == status())',
+                              'implies(solves() > old(solves()), self.solve_performed) and implies(solves() == old(solves()), self.solve_performed == old(self.solve_performed))'])},
+    use_lemmas={'after_call:get_all_vars_at_rank': [('SUM/ext', {'f': 'lam(q, len(result), nu(result[q]))',
+                                                                 'g': 'lam(q, len(result), nu(self.model.rank_lists[r - 1][q].lp_var))',
+                                                                 'n': 'len(result)'})]},
+    modifies=['self.info_string', 'self.solve_performed', 'ghost:feas', 'ghost:val', 'ghost:status', 'ghost:hist', 'ghost:solves', 'ghost:objective', 'ghost:feas_at_solve'],
+    ensures=[('ranks-R-down-to-cut-each-minimised-and-frozen', "feas() == (old(feas()) and forall(r2, R() - done() + 1, R() + 1, stepr(r2)))"),
+             ('at-most-one-solve-per-visited-rank', 'old(solves()) <= solves() and solves() <= old(solves()) + N()'),
+             ('all-ranks-visited-unless-a-solve-failed', 'implies(status() == 1 or solves() == old(solves()), solves() == old(solves()) + N())'),
+             ('only-the-last-solve-may-have-failed', 'forall(u, old(solves()), solves() - 1, hist(u) == 1)'),
+             ('status-is-that-of-the-last-solve', 'implies(solves() > old(solves()), hist(solves() - 1) == status()) and implies(solves() == old(solves()), status() == old(status()))'),
+             ('earlier-history-unchanged', 'forall(u, implies(u < old(solves()), hist(u) == old(hist(u))))'), ('solve-recorded', 'implies(solves() > old(solves()), self.solve_performed) and implies(solves() == old(solves()), self.solve_performed == old(self.solve_performed))')]),
+
+ # ---- C03 greedy: for ranks 1, 2, ..., min(cut, R): maximise the number of students at that rank, freezing each optimum
+ M + 'optimisation_greedy': dict(
+    params={'additional_arguments': ('list', 'int')},
+    requires=['has_vars(self.model.rank_lists)', 'self.model.num_students >= 0'],
+    defs={'R': ([], 'len(self.model.rank_lists)'),
+          'cut': ([], 'ite(len(additional_arguments) < 1, R(), additional_arguments[0])'),
+          'N': ([], 'max(0, min(cut() + 1, R() + 1) - 1)'),
+          'ov': (['r'], "indexedvar('obj_greedy_rank_', r)"),
+          'stepr': (['r'], '0 <= nu(ov(r)) and nu(ov(r)) <= self.model.num_students'
+                           ' and varsum(self.model.rank_lists[r - 1]) == nu(ov(r))'
+                           " and nu(ov(r)) >= rec('bound')[r]"),
+          'done': ([], 'solves() - old(solves())')},
+    loops={0: dict(record={'bound': ('int', 'solved(obj)', 'r')},
+                   invariant=['feas() == (old(feas()) and forall(r2, 1, done() + 1, stepr(r2)))',
+                              'solves() == old(solves()) + _k',
+                              ('no-solve-after-a-failure', 'forall(u, old(solves()), solves(), hist(u) == 1)'),
+                              'forall(u, implies(u < old(solves()), hist(u) == old(hist(u))))',
+                              'implies(_k == 0, status() == old(status()))', 'implies(_k > 0, hist(solves() - 1) == status())',
+                              'implies(solves() > old(solves()), self.solve_performed) and implies(solves() == old(solves()), self.solve_performed == old(self.solve_performed))'])},
+    use_lemmas={'after_call:get_all_vars_at_rank': [('SUM/ext', {'f': 'lam(q, len(result), nu(result[q]))',
+                                                                 'g': 'lam(q, len(result), nu(self.model.rank_lists[r - 1][q].lp_var))',
+                                                                 'n': 'len(result)'})]},
+    modifies=['self.info_string', 'self.solve_performed', 'ghost:feas', 'ghost:val', 'ghost:status', 'ghost:hist', 'ghost:solves', 'ghost:objective', 'ghost:feas_at_solve'],
+    ensures=[('ranks-1-up-to-cut-each-maximised-and-frozen', "feas() == (old(feas()) and forall(r2, 1, done() + 1, stepr(r2)))"),
+             ('at-most-one-solve-per-visited-rank', 'old(solves()) <= solves() and solves() <= old(solves()) + N()'),
+             ('all-ranks-visited-unless-a-solve-failed', 'implies(status() == 1 or solves() == old(solves()), solves() == old(solves()) + N())'),
+             ('only-the-last-solve-may-have-failed', 'forall(u, old(solves()), solves() - 1, hist(u) == 1)'),
+             ('status-is-that-of-the-last-solve', 'implies(solves() > old(solves()), hist(solves() - 1) == status()) and implies(solves() == old(solves()), status() == old(status()))'),
+             ('earlier-history-unchanged', 'forall(u, implies(u < old(solves()), hist(u) == old(hist(u))))'), ('solve-recorded', 'implies(solves() > old(solves()), self.solve_performed) and implies(solves() == old(solves()), self.solve_performed == old(self.solve_performed))')]),
+
+ # all decision variables, row after row: the sum of their values is the sum of the row sums (= size of the matching)
+ M + 'get_all_pairs_vars': dict(
+    locals={'all_vars': ('list', 'var')},
+    requires=['has_vars(self.model.pairs)'],
+    defs={'total': (['L'], 'Sum(q, len(L), nu(L[q]))'),
+          'rows_total': (['n'], 'Sum(i, n, varsum(self.model.pairs[i]))')},
+    loops={0: dict(invariant=['total(all_vars) == rows_total(_k)']),
+           1: dict(invariant=['total(all_vars) == rows_total(_k0) + Sum(c, _k, nu(pairs_row[c].lp_var))'])},
+    use_lemmas={'loop1.body_end': [('SUM/ext', {'f': 'lam(q, len(prev(all_vars)), nu(all_vars[q]))', 'g': 'lam(q, len(prev(all_vars)), nu(prev(all_vars)[q]))',
+                                                'n': 'len(prev(all_vars))'})]},
+    returns=('list', 'var'),
+    ensures=[('sum-of-all-variables-is-the-sum-of-the-row-sums', 'Sum(q, len(result), nu(result[q])) == Sum(i, len(self.model.pairs), varsum(self.model.pairs[i]))')]),
+
+ M + 'optimisation_maxsize': dict(
+    requires=['has_vars(self.model.pairs)', "not used('obj_maxsize')"],
+    defs={'o': ([], "namedvar('obj_maxsize')"), 'size': ([], 'Sum(i, len(self.model.pairs), varsum(self.model.pairs[i]))')},
+    modifies=['self.info_string', 'self.solve_performed', 'ghost:feas', 'ghost:val', 'ghost:status', 'ghost:hist', 'ghost:solves', 'ghost:objective', 'ghost:feas_at_solve', 'ghost:used:obj_maxsize'],
+    ensures=[('size-linked-maximised-frozen', 'feas() == (old(feas()) and 0 <= nu(o()) and nu(o()) <= self.model.num_students and size() == nu(o()) and nu(o()) >= solved(o()))'),
+             ('one-solve', 'solves() == old(solves()) + 1 and hist(old(solves())) == status()'), ('earlier-history-unchanged', 'forall(u, implies(u < old(solves()), hist(u) == old(hist(u))))'), ('solve-recorded', 'implies(solves() > old(solves()), self.solve_performed) and implies(solves() == old(solves()), self.solve_performed == old(self.solve_performed))'),
+             ('maximises', 'objective() == nu(o())'), ('name-used', "used('obj_maxsize')")]),
+ M + 'optimisation_minsize': dict(
+    requires=['has_vars(self.model.pairs)', "not used('obj_minsize')"],
+    defs={'o': ([], "namedvar('obj_minsize')"), 'size': ([], 'Sum(i, len(self.model.pairs), varsum(self.model.pairs[i]))')},
+    modifies=['self.info_string', 'self.solve_performed', 'ghost:feas', 'ghost:val', 'ghost:status', 'ghost:hist', 'ghost:solves', 'ghost:objective', 'ghost:feas_at_solve', 'ghost:used:obj_minsize'],
+    ensures=[('size-linked-minimised-frozen', 'feas() == (old(feas()) and 0 <= nu(o()) and nu(o()) <= self.model.num_students and size() == nu(o()) and nu(o()) <= solved(o()))'),
+             ('one-solve', 'solves() == old(solves()) + 1 and hist(old(solves())) == status()'), ('earlier-history-unchanged', 'forall(u, implies(u < old(solves()), hist(u) == old(hist(u))))'), ('solve-recorded', 'implies(solves() > old(solves()), self.solve_performed) and implies(solves() == old(solves()), self.solve_performed == old(self.solve_performed))'),
+             ('minimises', 'objective() == 0 - nu(o())'), ('name-used', "used('obj_minsize')")]),
+
+ M + 'optimisation_mincost': dict(
+    params={'cost_multipliers': ('list', 'int')},
+    requires=MODEL_OK + ['pairs_ok(self.model)', "not used('obj_mincost')"],
+    defs={'o': ([], "namedvar('obj_mincost')"),
+          'sm': ([], 'ite(len(cost_multipliers) < 1, 1, cost_multipliers[0])'),
+          'lm': ([], 'ite(len(cost_multipliers) < 2, 0, cost_multipliers[1])'),
+          'cost': (['p'], 'nu(p.lp_var) * p.rank_student * sm() + ite(has(p, \'rank_lecturer\'), nu(p.lp_var) * p.rank_lecturer * lm(), 0)'),
+          'total': ([], 'Sum(i, len(self.model.pairs), Sum(c, len(self.model.pairs[i]), cost(self.model.pairs[i][c])))'),
+          'UB': ([], 'self.model.num_students * self.model.num_projects * sm() + self.model.num_students * self.model.num_lecturers * lm()')},
+    loops={0: dict(invariant=['sum_costs_exp == Sum(q, _k, cost(flat(self.model.pairs)[q]))'])},
+    use_lemmas={'loop0.exit': [('FLAT/sum', {'rows': 'self.model.pairs', 'g': 'lam(x, 1, cost(ref(x)))'})]},
+    modifies=['self.info_string', 'self.solve_performed', 'ghost:feas', 'ghost:val', 'ghost:status', 'ghost:hist', 'ghost:solves', 'ghost:objective', 'ghost:feas_at_solve', 'ghost:used:obj_mincost'],
+    ensures=[('cost-linked-minimised-frozen', 'feas() == (old(feas()) and 0 <= nu(o()) and nu(o()) <= UB() and total() == nu(o()) and nu(o()) <= solved(o()))'),
+             ('one-solve', 'solves() == old(solves()) + 1 and hist(old(solves())) == status()'), ('earlier-history-unchanged', 'forall(u, implies(u < old(solves()), hist(u) == old(hist(u))))'), ('solve-recorded', 'implies(solves() > old(solves()), self.solve_performed) and implies(solves() == old(solves()), self.solve_performed == old(self.solve_performed))'),
+             ('minimises', 'objective() == 0 - nu(o())'), ('name-used', "used('obj_mincost')")]),
+
+ M + 'optimisation_minsqcost': dict(
+    params={'cost_multipliers': ('list', 'int')},
+    requires=MODEL_OK + ['pairs_ok(self.model)', "not used('obj_minsqcost')"],
+    defs={'o': ([], "namedvar('obj_minsqcost')"),
+          'sm': ([], 'ite(len(cost_multipliers) < 1, 1, cost_multipliers[0])'),
+          'lm': ([], 'ite(len(cost_multipliers) < 2, 0, cost_multipliers[1])'),
+          'cost': (['p'], 'nu(p.lp_var) * (p.rank_student * p.rank_student) * sm() + ite(has(p, \'rank_lecturer\'), nu(p.lp_var) * (p.rank_lecturer * p.rank_lecturer) * lm(), 0)'),
+          'total': ([], 'Sum(i, len(self.model.pairs), Sum(c, len(self.model.pairs[i]), cost(self.model.pairs[i][c])))'),
+          'UB': ([], '(self.model.num_students * len(self.model.rank_lists)) * (self.model.num_students * len(self.model.rank_lists)) * sm() + (self.model.num_lecturers * self.model.num_students) * (self.model.num_lecturers * self.model.num_students) * lm()')},
+    loops={0: dict(invariant=['sum_costs_exp == Sum(q, _k, cost(flat(self.model.pairs)[q]))'])},
+    use_lemmas={'loop0.exit': [('FLAT/sum', {'rows': 'self.model.pairs', 'g': 'lam(x, 1, cost(ref(x)))'})]},
+    modifies=['self.info_string', 'self.solve_performed', 'ghost:feas', 'ghost:val', 'ghost:status', 'ghost:hist', 'ghost:solves', 'ghost:objective', 'ghost:feas_at_solve', 'ghost:used:obj_minsqcost'],
+    ensures=[('cost-linked-minimised-frozen', 'feas() == (old(feas()) and 0 <= nu(o()) and nu(o()) <= UB() and total() == nu(o()) and nu(o()) <= solved(o()))'),
+             ('one-solve', 'solves() == old(solves()) + 1 and hist(old(solves())) == status()'), ('earlier-history-unchanged', 'forall(u, implies(u < old(solves()), hist(u) == old(hist(u))))'), ('solve-recorded', 'implies(solves() > old(solves()), self.solve_performed) and implies(solves() == old(solves()), self.solve_performed == old(self.solve_performed))'),
+             ('minimises', 'objective() == 0 - nu(o())'), ('name-used', "used('obj_minsqcost')")]),
+
+ M + 'optimisation_mincostlsb': dict(
+    params={'cost_multipliers': ('list', 'int')},
+    requires=MODEL_OK + ['pairs_ok(self.model)', "not used('obj_mincostlsb')"],
+    defs={'o': ([], "namedvar('obj_mincostlsb')"),
+          'sm': ([], 'ite(len(cost_multipliers) < 1, 1, cost_multipliers[0])'),
+          'lm': ([], 'ite(len(cost_multipliers) < 2, 1, cost_multipliers[1])'),
+          'cost': (['p'], 'nu(p.lp_var) * p.rank_student * sm()'),
+          'total': ([], 'Sum(i, len(self.model.pairs), Sum(c, len(self.model.pairs[i]), cost(self.model.pairs[i][c]))) + Sum(k, len(self.model.abs_lec_diff), nu(self.model.abs_lec_diff[k])) * lm()'),
+          'UB': ([], 'self.model.num_students * self.model.num_projects * sm() + self.model.num_students * self.model.num_lecturers * lm()')},
+    loops={0: dict(invariant=['sum_costs_exp == Sum(q, _k, cost(flat(self.model.pairs)[q]))'])},
+    use_lemmas={'loop0.exit': [('FLAT/sum', {'rows': 'self.model.pairs', 'g': 'lam(x, 1, cost(ref(x)))'})]},
+    modifies=['self.info_string', 'self.solve_performed', 'ghost:feas', 'ghost:val', 'ghost:status', 'ghost:hist', 'ghost:solves', 'ghost:objective', 'ghost:feas_at_solve', 'ghost:used:obj_mincostlsb'],
+    ensures=[('cost-linked-minimised-frozen', 'feas() == (old(feas()) and 0 <= nu(o()) and nu(o()) <= UB() and total() == nu(o()) and nu(o()) <= solved(o()))'),
+             ('one-solve', 'solves() == old(solves()) + 1 and hist(old(solves())) == status()'), ('earlier-history-unchanged', 'forall(u, implies(u < old(solves()), hist(u) == old(hist(u))))'), ('solve-recorded', 'implies(solves() > old(solves()), self.solve_performed) and implies(solves() == old(solves()), self.solve_performed == old(self.solve_performed))'),
+             ('minimises', 'objective() == 0 - nu(o())'), ('name-used', "used('obj_mincostlsb')")]),
+
+ # ---- load balancing: abs_lec_diff[k] >= |load_k - target_k|
+ M + 'loadbalancing_constraints': dict(
+    requires=MODEL_OK + ['len(self.model.lec_overload) == self.model.num_lecturers', 'len(self.model.lec_underload) == self.model.num_lecturers',
+                         'len(self.model.abs_lec_diff) == self.model.num_lecturers'],
+    defs={'dev_ok': (['k'], 'nu(self.model.abs_lec_diff[k]) >= varsum(self.model.lecturer_lists[k]) - self.model.lec_targets[k]'
+                            ' and nu(self.model.abs_lec_diff[k]) >= self.model.lec_targets[k] - varsum(self.model.lecturer_lists[k])')},
+    loops={0: dict(invariant=['feas() == (old(feas()) and forall(k, 0, _k, dev_ok(k)))',
+                              'len(self.model.lec_overload) == self.model.num_lecturers and len(self.model.lec_underload) == self.model.num_lecturers'])},
+    modifies=['self.info_string', 'ghost:feas', 'self.model.lec_overload', 'self.model.lec_underload'],
+    ensures=[('deviation-variables-bound-the-absolute-deviation', 'feas() == (old(feas()) and forall(k, 0, self.model.num_lecturers, dev_ok(k)))')]),
+
+ M + 'optimisation_loadmaxbal': dict(
+    requires=['sizes_ok(self.model)', 'self.model.num_lecturers >= 1', 'len(self.model.abs_lec_diff) == self.model.num_lecturers', "not used('lec_max_abs_diff')"],
+    defs={'o': ([], "namedvar('lec_max_abs_diff')")},
+    loops={0: dict(invariant=['feas() == (old(feas()) and 0 <= nu(o()) and exists(m, 0, self.model.num_lecturers, nu(o()) <= self.model.lec_upper_quotas[m])'
+                              ' and forall(m, 0, self.model.num_lecturers, implies(forall(k2, 0, self.model.num_lecturers, self.model.lec_upper_quotas[k2] <= self.model.lec_upper_quotas[m]), nu(o()) <= self.model.lec_upper_quotas[m]))'
+                              ' and forall(k, 0, _k, nu(o()) >= nu(self.model.abs_lec_diff[k])))'])},
+    modifies=['self.info_string', 'self.solve_performed', 'ghost:feas', 'ghost:val', 'ghost:status', 'ghost:hist', 'ghost:solves', 'ghost:objective', 'ghost:feas_at_solve', 'ghost:used:lec_max_abs_diff'],
+    ensures=[('max-deviation-linked-minimised-frozen',
+              'exists(mx, 0, self.model.num_lecturers, forall(k2, 0, self.model.num_lecturers, self.model.lec_upper_quotas[k2] <= self.model.lec_upper_quotas[mx]) and '
+              'feas() == (old(feas()) and 0 <= nu(o()) and nu(o()) <= self.model.lec_upper_quotas[mx]'
+              ' and forall(k, 0, self.model.num_lecturers, nu(o()) >= nu(self.model.abs_lec_diff[k])) and nu(o()) <= solved(o())))'),
+             ('one-solve', 'solves() == old(solves()) + 1 and hist(old(solves())) == status()'), ('earlier-history-unchanged', 'forall(u, implies(u < old(solves()), hist(u) == old(hist(u))))'), ('solve-recorded', 'implies(solves() > old(solves()), self.solve_performed) and implies(solves() == old(solves()), self.solve_performed == old(self.solve_performed))'),
+             ('minimises', 'objective() == 0 - nu(o())'), ('name-used', "used('lec_max_abs_diff')")]),
+
+ M + 'optimisation_loadsumbal': dict(
+    requires=['sizes_ok(self.model)', 'self.model.num_lecturers >= 1', 'len(self.model.abs_lec_diff) == self.model.num_lecturers', "not used('lec_sum_abs_diff')"],
+    defs={'o': ([], "namedvar('lec_sum_abs_diff')")},
+    modifies=['self.info_string', 'self.solve_performed', 'ghost:feas', 'ghost:val', 'ghost:status', 'ghost:hist', 'ghost:solves', 'ghost:objective', 'ghost:feas_at_solve', 'ghost:used:lec_sum_abs_diff'],
+    ensures=[('sum-of-deviations-linked-minimised-frozen',
+              'exists(mx, 0, self.model.num_lecturers, forall(k2, 0, self.model.num_lecturers, self.model.lec_upper_quotas[k2] <= self.model.lec_upper_quotas[mx]) and '
+              'feas() == (old(feas()) and 0 <= nu(o()) and nu(o()) <= self.model.lec_upper_quotas[mx] * self.model.num_students'
+              ' and nu(o()) >= Sum(k, len(self.model.abs_lec_diff), nu(self.model.abs_lec_diff[k])) and nu(o()) <= solved(o())))'),
+             ('one-solve', 'solves() == old(solves()) + 1 and hist(old(solves())) == status()'), ('earlier-history-unchanged', 'forall(u, implies(u < old(solves()), hist(u) == old(hist(u))))'), ('solve-recorded', 'implies(solves() > old(solves()), self.solve_performed) and implies(solves() == old(solves()), self.solve_performed == old(self.solve_performed))'),
+             ('minimises', 'objective() == 0 - nu(o())'), ('name-used', "used('lec_sum_abs_diff')")]),
+
+ # ---- C04 / C14 / C16: criteria are dispatched in list order; after the first solve that is not Optimal nothing more is solved
+ M + 'run_optimisations': dict(
+    params={'optimisation_options': ('list', 'crit')},
+    requires=MODEL_OK + ['pairs_ok(self.model)', 'has_vars(self.model.rank_lists)', 'self.model.num_lecturers >= 1',
+              ('each-criterion-at-most-once', 'forall(a, 0, len(optimisation_options), forall(b, a + 1, len(optimisation_options), optimisation_options[a][0] != optimisation_options[b][0]))'),
+              ('criteria-are-members', 'forall(a, 0, len(optimisation_options), 1 <= optimisation_options[a][0] and optimisation_options[a][0] <= 9)'),
+              ('extras-are-lists-where-used', 'forall(a, 0, len(optimisation_options), implies(optimisation_options[a][0] == Optimisation_options.GENEROUS or optimisation_options[a][0] == Optimisation_options.GREEDY or optimisation_options[a][0] == Optimisation_options.MINCOST or optimisation_options[a][0] == Optimisation_options.MINSQCOST or optimisation_options[a][0] == Optimisation_options.MINCOSTLSB, optimisation_options[a][1] != None))'),
+              ('load-balancing-variables-exist-when-needed', 'implies(exists(a, 0, len(optimisation_options), optimisation_options[a][0] == Optimisation_options.LOADMAXBAL or optimisation_options[a][0] == Optimisation_options.LOADSUMBAL or optimisation_options[a][0] == Optimisation_options.MINCOSTLSB), len(self.model.abs_lec_diff) == self.model.num_lecturers)'),
+              "not used('obj_maxsize')", "not used('obj_minsize')", "not used('obj_mincost')", "not used('obj_minsqcost')", "not used('lec_max_abs_diff')", "not used('lec_sum_abs_diff')", "not used('obj_mincostlsb')"],
+    loops={0: dict(invariant=[('no-solve-after-a-failure', 'forall(u, old(solves()), solves(), hist(u) == 1)'),
+                              'solves() >= old(solves())', 'forall(u, implies(u < old(solves()), hist(u) == old(hist(u))))',
+                              'implies(solves() == old(solves()), status() == old(status()))', 'implies(solves() > old(solves()), hist(solves() - 1) == status())',
+                              'implies(solves() > old(solves()), self.solve_performed) and implies(solves() == old(solves()), self.solve_performed == old(self.solve_performed))',
+                              ('constraints-only-grow', 'implies(feas(), old(feas()))'),
+                              ('names-used-by-the-criteria-run-so-far', "used('obj_maxsize') == exists(t, 0, _k, optimisation_options[t][0] == Optimisation_options.MAXSIZE) and used('obj_minsize') == exists(t, 0, _k, optimisation_options[t][0] == Optimisation_options.MINSIZE) and used('obj_mincost') == exists(t, 0, _k, optimisation_options[t][0] == Optimisation_options.MINCOST) and used('obj_minsqcost') == exists(t, 0, _k, optimisation_options[t][0] == Optimisation_options.MINSQCOST) and used('lec_max_abs_diff') == exists(t, 0, _k, optimisation_options[t][0] == Optimisation_options.LOADMAXBAL) and used('lec_sum_abs_diff') == exists(t, 0, _k, optimisation_options[t][0] == Optimisation_options.LOADSUMBAL) and used('obj_mincostlsb') == exists(t, 0, _k, optimisation_options[t][0] == Optimisation_options.MINCOSTLSB)")])},
+    modifies=['self.info_string', 'self.solve_performed', 'ghost:feas', 'ghost:val', 'ghost:status', 'ghost:hist', 'ghost:solves', 'ghost:objective', 'ghost:feas_at_solve', 'ghost:used:obj_maxsize', 'ghost:used:obj_minsize', 'ghost:used:obj_mincost', 'ghost:used:obj_minsqcost', 'ghost:used:lec_max_abs_diff', 'ghost:used:lec_sum_abs_diff', 'ghost:used:obj_mincostlsb'],
+    ensures=[('only-the-last-solve-may-have-failed', 'forall(u, old(solves()), solves() - 1, hist(u) == 1)'),
+             ('status-is-that-of-the-last-solve', 'implies(solves() > old(solves()), hist(solves() - 1) == status())'),
+             ('constraints-only-grow', 'implies(feas(), old(feas()))'),
+             ('status-unchanged-without-solve', 'implies(solves() == old(solves()), status() == old(status()))'),
+             ('solves-never-decrease', 'solves() >= old(solves())'), ('earlier-history-unchanged', 'forall(u, implies(u < old(solves()), hist(u) == old(hist(u))))'), ('solve-recorded', 'implies(solves() > old(solves()), self.solve_performed) and implies(solves() == old(solves()), self.solve_performed == old(self.solve_performed))')]),
+
+ M + 'add_constraints': dict(inline=True,
+    loops={0: dict(invariant=['load_balancing_constraints_needed == exists(t, 0, _k, optimisation_options[t][0] == Optimisation_options.LOADMAXBAL'
+                              ' or optimisation_options[t][0] == Optimisation_options.LOADSUMBAL or optimisation_options[t][0] == Optimisation_options.MINCOSTLSB)'])}),
+
+ # ---- C02 / C14: the whole LP run: constraints, criteria in order, at least one solve, the status of the last solve is returned
+ M + 'run': dict(
+    params={'msg': 'bool', 'timeLimit': 'optint', 'threads': 'optint', 'write': 'bool'},
+    requires=MODEL_OK + ['pairs_ok(self.model)', 'has_vars(self.model.rank_lists)', 'self.model.num_lecturers >= 1', 'rows_sorted(self.model)',
+              'implies(self.extra_constraints[Extra_constraints.STAB], two_sided(self.model) and stab_vars(self.model.pairs) and lists_two_sided(self.model.lecturer_lists))',
+              'implies(self.instance_options[Instance_options.PC], len(self.model.project_closures) == self.model.num_projects)',
+              ('each-criterion-at-most-once', 'forall(a, 0, len(self.optimisation_options), forall(b, a + 1, len(self.optimisation_options), self.optimisation_options[a][0] != self.optimisation_options[b][0]))'),
+              ('criteria-are-members', 'forall(a, 0, len(self.optimisation_options), 1 <= self.optimisation_options[a][0] and self.optimisation_options[a][0] <= 9)'),
+              ('extras-are-lists-where-used', 'forall(a, 0, len(self.optimisation_options), implies(self.optimisation_options[a][0] == Optimisation_options.GENEROUS or self.optimisation_options[a][0] == Optimisation_options.GREEDY or self.optimisation_options[a][0] == Optimisation_options.MINCOST or self.optimisation_options[a][0] == Optimisation_options.MINSQCOST or self.optimisation_options[a][0] == Optimisation_options.MINCOSTLSB, self.optimisation_options[a][1] != None))'),
+              ('load-balancing-variables-exist-when-needed', 'implies(exists(a, 0, len(self.optimisation_options), self.optimisation_options[a][0] == Optimisation_options.LOADMAXBAL or self.optimisation_options[a][0] == Optimisation_options.LOADSUMBAL or self.optimisation_options[a][0] == Optimisation_options.MINCOSTLSB),'
+               ' len(self.model.abs_lec_diff) == self.model.num_lecturers and len(self.model.lec_overload) == self.model.num_lecturers and len(self.model.lec_underload) == self.model.num_lecturers)'),
+              "not used('obj_maxsize')", "not used('obj_minsize')", "not used('obj_mincost')", "not used('obj_minsqcost')", "not used('lec_max_abs_diff')", "not used('lec_sum_abs_diff')", "not used('obj_mincostlsb')"],
+    modifies=['self.info_string', 'self.solver', 'self.model.info_string', 'self.model.lec_overload', 'self.model.lec_underload', 'self.solve_performed', 'ghost:feas', 'ghost:val', 'ghost:status', 'ghost:hist', 'ghost:solves', 'ghost:objective', 'ghost:feas_at_solve', 'ghost:used:obj_maxsize', 'ghost:used:obj_minsize', 'ghost:used:obj_mincost', 'ghost:used:obj_minsqcost', 'ghost:used:lec_max_abs_diff', 'ghost:used:lec_sum_abs_diff', 'ghost:used:obj_mincostlsb'],
+    returns=('str', 'status'),
+    ensures=[('solves-at-least-once', 'solves() > old(solves())'),
+             ('only-the-last-solve-may-have-failed', 'forall(u, old(solves()), solves() - 1, hist(u) == 1)'),
+             ('returns-the-status-of-the-last-solve', 'hist(solves() - 1) == status() and result == LpStatus[status()]'),
+             ('constraints-only-grow', 'implies(feas(), old(feas()))'),
+             ('earlier-history-unchanged', 'forall(u, implies(u < old(solves()), hist(u) == old(hist(u))))')]),
 }
